@@ -62,6 +62,7 @@ type callPlan struct {
 	before jit
 	inFn   jit
 	fail   bool
+	pan    bool // the function panics (the caller recovers, as a server's recover middleware would)
 	ex     bool // use DoEx
 }
 
@@ -75,6 +76,7 @@ type callRec struct {
 	hasFresh  bool
 	ownExec   int64 // execution token if this call's own fn ran (0 otherwise)
 	ownRuns   int32
+	panicked  any // value recovered from the call, if it panicked
 }
 
 type execRec struct {
@@ -83,6 +85,7 @@ type execRec struct {
 	start, end int64
 	err        error
 	owner      *callRec
+	panicked   bool // the function panicked: sharers of this execution receive (nil, nil)
 }
 
 func renderPlans(plans [][]callPlan) string {
@@ -91,6 +94,9 @@ func renderPlans(plans [][]callPlan) string {
 		fmt.Fprintf(&b, "g%d:", g)
 		for _, p := range pl {
 			fmt.Fprintf(&b, " k%d/%d.%d/%d.%d/%v", p.key, p.before.kind, p.before.n, p.inFn.kind, p.inFn.n, p.fail)
+			if p.pan {
+				b.WriteString("/PANIC")
+			}
 		}
 		b.WriteString("; ")
 	}
@@ -107,6 +113,7 @@ func genPlans(t *rapid.T) [][]callPlan {
 			plans[i] = append(plans[i], callPlan{
 				key: rapid.IntRange(0, keys-1).Draw(t, "key"), before: genJit(t, "before"), inFn: genJit(t, "inFn"),
 				fail: rapid.IntRange(0, 4).Draw(t, "fail") == 0, ex: rapid.Bool().Draw(t, "useDoEx"),
+				pan: rapid.IntRange(0, 9).Draw(t, "panic") == 0,
 			})
 		}
 	}
@@ -139,10 +146,43 @@ func checkSingleFlightHistory(calls []*callRec, execs []*execRec) (string, int) 
 		if c.ownRuns > 1 {
 			return fmt.Sprintf("call g%d#%d: its function ran %d times", c.g, c.i, c.ownRuns), 0
 		}
+		if c.panicked != nil {
+			// only the call that ran the function may see its panic, with the planned value
+			pv, isPlanned := c.panicked.(tokenPanic)
+			if !isPlanned || c.ownExec == 0 || pv.token != c.ownExec {
+				return fmt.Sprintf("call g%d#%d on k%d panicked with %v (own execution %d)", c.g, c.i, c.key, c.panicked, c.ownExec), 0
+			}
+			continue
+		}
+		if c.ownExec != 0 && byToken[c.ownExec] != nil && byToken[c.ownExec].panicked {
+			return fmt.Sprintf("call g%d#%d: its function panicked (execution %d) but the call returned (%v,%v) normally", c.g, c.i, c.ownExec, c.val, c.err), 0
+		}
 		tok, ok := c.val.(int64)
 		var e *execRec
 		if ok {
 			e = byToken[tok]
+		} else if c.val == nil && c.err == nil && c.ownExec == 0 {
+			// (nil, nil): legal only as the outcome of a panicked execution whose leading call overlaps
+			for _, x := range perKey[c.key] {
+				if x.panicked && x.owner.inv < c.ret && c.inv < x.owner.ret {
+					e = x
+				}
+			}
+			if e == nil {
+				for _, x := range perKey[c.key] {
+					if x.panicked {
+						return fmt.Sprintf("STALE: call g%d#%d on k%d [inv %d, ret %d] ran nothing and received (nil,nil): the leftover of execution %d, which panicked and whose leading call g%d#%d [inv %d, ret %d] had long returned",
+							c.g, c.i, c.key, c.inv, c.ret, x.token, x.owner.g, x.owner.i, x.owner.inv, x.owner.ret), 0
+					}
+				}
+			}
+			if e != nil {
+				shared++
+				if c.hasFresh && c.fresh {
+					return fmt.Sprintf("call g%d#%d: fresh=true but its own function never ran", c.g, c.i), 0
+				}
+				continue
+			}
 		} else if c.err != nil {
 			// failed executions return (nil, err) with the token inside the error
 			var te tokenErr
@@ -189,6 +229,8 @@ func checkSingleFlightHistory(calls []*callRec, execs []*execRec) (string, int) 
 	return "", shared
 }
 
+type tokenPanic struct{ token int64 }
+
 type tokenErr struct{ token int64 }
 
 func (e tokenErr) Error() string { return fmt.Sprintf("planned failure of execution %d", e.token) }
@@ -223,10 +265,14 @@ func runSingleFlight(t *rapid.T, st *verifkit.Stats, yield bool) {
 					if p.fail {
 						e.err = tokenErr{e.token}
 					}
+					e.panicked = p.pan
 					e.end = tick()
 					mu.Lock()
 					execs = append(execs, e)
 					mu.Unlock()
+					if p.pan {
+						panic(tokenPanic{e.token})
+					}
 					if p.fail {
 						return nil, e.err
 					}
@@ -234,11 +280,17 @@ func runSingleFlight(t *rapid.T, st *verifkit.Stats, yield bool) {
 				}
 				key := fmt.Sprintf("k%d", p.key)
 				rec.inv = tick()
-				if p.ex {
-					rec.val, rec.fresh, rec.err = sf.DoEx(key, fn)
-					rec.hasFresh = true
-				} else {
-					rec.val, rec.err = sf.Do(key, fn)
+				func() {
+					defer func() { rec.panicked = recover() }()
+					if p.ex {
+						rec.val, rec.fresh, rec.err = sf.DoEx(key, fn)
+						rec.hasFresh = true
+					} else {
+						rec.val, rec.err = sf.Do(key, fn)
+					}
+				}()
+				if rec.panicked != nil {
+					rec.hasFresh = false
 				}
 				rec.ret = tick()
 				mu.Lock()
@@ -318,12 +370,31 @@ func runLockedCalls(t *rapid.T, st *verifkit.Stats, yield bool) {
 					mu.Lock()
 					execs = append(execs, e)
 					mu.Unlock()
+					if p.pan {
+						panic(tokenPanic{e.token})
+					}
 					if p.fail {
 						return nil, tokenErr{e.token}
 					}
 					return e.token, nil
 				}
-				v, err := lc.Do(fmt.Sprintf("k%d", p.key), fn)
+				var v any
+				var err error
+				var pv any
+				func() {
+					defer func() { pv = recover() }()
+					v, err = lc.Do(fmt.Sprintf("k%d", p.key), fn)
+				}()
+				if p.pan {
+					if tp, ok := pv.(tokenPanic); !ok || tp.token != tok || runs != 1 {
+						bad.Store(fmt.Sprintf("call g%d#%d: planned panic %d, recovered %v, function ran %d times", g, i, tok, pv, runs))
+					}
+					continue
+				}
+				if pv != nil {
+					bad.Store(fmt.Sprintf("call g%d#%d panicked with %v although its function did not", g, i, pv))
+					continue
+				}
 				if runs != 1 {
 					bad.Store(fmt.Sprintf("call g%d#%d: own function ran %d times", g, i, runs))
 				}
@@ -448,6 +519,13 @@ func TestVerifC07ResourceManager(t *testing.T) {
 		plans := genPlans(t)
 		rm := syncx.NewResourceManager()
 		var mu sync.Mutex
+		type foreignPanic struct {
+			key      int
+			inv, ret int64
+			msg      string
+		}
+		var foreign []foreignPanic
+		panicLeaders := map[int][][2]int64{}
 		created := map[int][]*res{}   // successful creates per key
 		got := map[int]map[*res]int{} // instances handed out per key
 		failedCreates, failedGets := 0, 0
@@ -461,8 +539,20 @@ func TestVerifC07ResourceManager(t *testing.T) {
 				<-start
 				for _, p := range plans[g] {
 					p.before.run()
-					r, err := rm.GetResource(fmt.Sprintf("k%d", p.key), func() (io.Closer, error) {
+					var r io.Closer
+					var err error
+					var pv any
+					inv := tick()
+					func() {
+						defer func() { pv = recover() }()
+						r, err = rm.GetResource(fmt.Sprintf("k%d", p.key), func() (io.Closer, error) {
 						p.inFn.run()
+						if p.pan {
+							mu.Lock()
+							failedCreates++
+							mu.Unlock()
+							panic(tokenPanic{-1})
+						}
 						if p.fail {
 							mu.Lock()
 							failedCreates++
@@ -475,6 +565,22 @@ func TestVerifC07ResourceManager(t *testing.T) {
 						mu.Unlock()
 						return x, nil
 					})
+					}()
+					ret := tick()
+					if pv != nil {
+						mu.Lock()
+						if _, planned := pv.(tokenPanic); planned && p.pan {
+							panicLeaders[p.key] = append(panicLeaders[p.key], [2]int64{inv, ret})
+						} else {
+							// a caller that joined a flight whose create panicked has nothing to return; today
+							// that surfaces as a nil-interface conversion panic in the joiner.  The statement is
+							// silent about it, so it is accepted *if* such a flight overlaps this call; a panic
+							// with no overlapping panicked create is a leftover of an earlier call.
+							foreign = append(foreign, foreignPanic{p.key, inv, ret, fmt.Sprint(pv)})
+						}
+						mu.Unlock()
+						continue
+					}
 					mu.Lock()
 					if err != nil {
 						failedGets++
@@ -495,6 +601,18 @@ func TestVerifC07ResourceManager(t *testing.T) {
 		wg.Wait()
 		if v := bad.Load(); v != nil {
 			t.Fatalf("%v", v)
+		}
+		for _, f := range foreign {
+			ok := false
+			for _, l := range panicLeaders[f.key] {
+				if l[0] < f.ret && f.inv < l[1] {
+					ok = true
+				}
+			}
+			if !ok {
+				t.Fatalf("STALE: GetResource(k%d) [inv %d, ret %d] panicked with %q although no create that panicked overlaps it (leftover of an earlier panicked create); plans: %s", f.key, f.inv, f.ret, f.msg, renderPlans(plans))
+			}
+			st.Class("observed:joiner-of-panicked-create-panics")
 		}
 		for k, cs := range created {
 			if len(cs) > 1 {
